@@ -207,13 +207,14 @@ def install(reg):
         ("C03-1.0-without-keepalive-closes", "implies(self.version == '1.0' and connection != 'keep-alive', self.close_on_finish)"),
         ("C03-1.1-connection-close-closes", "implies(self.version == '1.1' and connection == 'close', self.close_on_finish)"),
         ("C03-close-decision-kept", "implies(old(self.close_on_finish), self.close_on_finish)"),
+        ("C01-F7-parser-close-decision-honoured", "implies(must_close, self.close_on_finish)"),
     ]
-    LOCALS = {"version": Str, "connection": Str, "content_length_header": Opt(Str), "date_header": Opt(Str), "server_header": Opt(Str)}
+    LOCALS = {"must_close": Bool, "version": Str, "connection": Str, "content_length_header": Opt(Str), "date_header": Opt(Str), "server_header": Opt(Str)}
     HDR_LOCALS_OK = [("collected-header-values-have-no-cr-lf", "no_crlf(content_length_header) and no_crlf(date_header) and no_crlf(server_header)"),
-                     ("version-local", "version == self.version")]
+                     ("version-local", "version == self.version"), ("must-close-is-the-parsers-decision", "must_close == self.request.connection_close")]
 
     def as_final(text):
-        for nm in ("content_length_header", "connection"):
+        for nm in ("content_length_header", "connection", "must_close"):
             text = text.replace(nm, "final('%s')" % nm)
         return text
     brh = reg.add(FuncContract(T + ".build_response_header", returns=Bytes, requires=[IDENT], raises=["UnicodeEncodeError"],
